@@ -172,7 +172,7 @@ DIAG_RE = re.compile(r'^(?P<file>.*?\.rsyn)(?::(?P<line>\d+):(?P<col>\d+))?: err
 
 def classify_cli(res):
     """Map the binary's behaviour to the model's outcome vocabulary."""
-    out = res['stdout']
+    out = re.sub(r'\x1b\[[0-9;]*m', '', res['stdout'])      # --color always: the words error/ok/warning are wrapped in SGR sequences
     if res['rc'] not in (0, 1) or 'panicked at' in res['stderr']:
         m = re.search(r"panicked at ([^\n]*)\n?([^\n]*)", res['stderr'])
         return ('panic', (m.group(1) + ' ' + m.group(2)).strip() if m else 'rc=%d' % res['rc'])
